@@ -44,7 +44,7 @@ class Scope:
 
 
 class Gen:
-    def __init__(self, rng, trim=False, lstrip=False, errors=0.04, wsctl=0.15):
+    def __init__(self, rng, trim=False, lstrip=False, errors=0.012, wsctl=0.15):
         self.r = rng
         self.trim, self.lstrip = trim, lstrip
         self.errors = errors
@@ -67,6 +67,7 @@ class Gen:
         ctx["ls"] = [self.rand_str(3) for _ in range(r.choice([0, 1, 2, 4]))]
         ctx["d"] = {k: r.randint(0, 5) for k in r.sample(["k", "a", "zz", "m"], r.randint(0, 4))}
         ctx["n0"] = None
+        ctx["acc"] = []          # only ever appended to through {% do %}; never iterated (no unbounded loops)
         ctx["obj"] = {"a": r.randint(0, 3), "b": self.rand_str(3), "l": [1, 2][: r.randint(0, 2)]}
         return ctx
 
@@ -77,6 +78,12 @@ class Gen:
         return s
 
     # ---------------------------------------------------------------- expressions
+    @staticmethod
+    def P(e):
+        """parenthesise unless atomic, so that a postfix (filter, test, subscript, call) applies to the whole operand"""
+        import re
+        return e if re.fullmatch(r"\w+|\(.*\)|\[[^\[\]]*\]", e) and e.count("(") <= 1 else "(" + e + ")"
+
     def lit_str(self):
         r = self.r
         body = "".join(r.choice(["a", "b", "X", " ", "-", "1", "<", "&", "\\n", "é", "%", "{", "}}", "\\t"]) for _ in range(r.randint(0, 5)))
@@ -102,14 +109,14 @@ class Gen:
         if k == 5: return f"({a}) ** {r.choice(['0', '1', '2', '3'])}"
         if k == 6: return f"-({a})"
         if k == 7: return f"({a} if {self.e_bool(sc, d - 1)} else {b})"
-        if k == 8: return f"{self.e_list(sc, d - 1)}|length"
-        if k == 9: return f"{self.e_str(sc, d - 1)}|length"
+        if k == 8: return f"{self.P(self.e_list(sc, d - 1))}|length"
+        if k == 9: return f"{self.P(self.e_str(sc, d - 1))}|length"
         if k == 10: return f"({a})|abs"
-        if k == 11: return f"{self.e_lint(sc, d - 1)}|sum"
-        if k == 12: return f"{self.e_str(sc, d - 1)}|int"
+        if k == 11: return f"{self.P(self.e_lint(sc, d - 1))}|sum"
+        if k == 12: return f"{self.P(self.e_str(sc, d - 1))}|int"
         if k == 13 and sc.in_loop: return r.choice(["loop.index", "loop.index0", "loop.revindex", "loop.revindex0", "loop.length", "loop.depth"])
         if k == 14: return r.choice(["obj.a", "obj['a']", "d|length", "d.get('k', 9)", "d['k']|default(4)" if False else "d.get('zz', 0)"])
-        if k == 15: return f"{self.e_str(sc, d - 1)}|wordcount"
+        if k == 15: return f"{self.P(self.e_str(sc, d - 1))}|wordcount"
         if k == 16: return f"[{a}, {b}]|{r.choice(['max', 'min', 'first', 'last'])}"
         return f"({a})"
 
@@ -122,10 +129,10 @@ class Gen:
             return self.lit_str()
         k = r.randint(0, 21)
         a = self.e_str(sc, d - 1)
-        if k == 0: return f"{a} ~ {self.e_any(sc, d - 1)}"
+        if k == 0: return f"{a} ~ {self.P(self.e_any(sc, d - 1))}"
         if k == 1: return f"({a})|{r.choice(['upper', 'lower', 'trim', 'capitalize', 'title', 'string', 'escape', 'e', 'safe', 'striptags', 'urlencode', 'reverse', 'forceescape'])}"
         if k == 2: return f"({a})|replace({self.lit_str()}, {self.lit_str()})"
-        if k == 3: return f"{self.e_list(sc, d - 1)}|join({self.lit_str()})"
+        if k == 3: return f"{self.P(self.e_list(sc, d - 1))}|join({self.lit_str()})"
         if k == 4: return f"({self.e_int(sc, d - 1)})|string"
         if k == 5: return f"({a})[{r.choice(['0:2', '1:', ':-1', '::2'])}]"
         if k == 6: return f"({a}) * {r.choice(['0', '1', '2'])}"
@@ -137,13 +144,13 @@ class Gen:
         if k == 12: return r.choice(["obj.b", "obj['b']"])
         if k == 13 and sc.macros:
             return self.macro_call(sc, d - 1)
-        if k == 14: return f"{self.e_lstr(sc, d - 1)}|{r.choice(['first', 'last'])}|default('none')"
+        if k == 14: return f"{self.P(self.e_lstr(sc, d - 1))}|{r.choice(['first', 'last'])}|default('none')"
         if k == 15: return f"({a})|indent({r.choice(['2', '4, true', '1, false'])})" if "\\n\\n" not in a else a
         if k == 16 and sc.in_loop: return f"loop.cycle({self.lit_str()}, {self.lit_str()})"
         if k == 17: return f"({a})|list|join('.')"
         if k == 18 and sc.caller: return "caller()"
         if k == 19: return f"({a})|{r.choice(['first', 'last'])}|default('')"
-        if k == 20: return f"{a} + {self.e_str(sc, d - 1)}"
+        if k == 20: return f"{self.P(a)} + {self.P(self.e_str(sc, d - 1))}"
         return f"({a})"
 
     def e_bool(self, sc, d):
@@ -160,14 +167,14 @@ class Gen:
         if k == 3: return f"({self.e_bool(sc, d - 1)} and {self.e_bool(sc, d - 1)})"
         if k == 4: return f"({self.e_bool(sc, d - 1)} or {self.e_bool(sc, d - 1)})"
         if k == 5: return f"{self.e_int(sc, d - 1)} {r.choice(['in', 'not in'])} {self.e_lint(sc, d - 1)}"
-        if k == 6: return f"{self.e_any(sc, d - 1)} is {r.choice(['', 'not '])}{r.choice(['defined', 'none', 'string', 'number', 'sequence', 'mapping', 'iterable', 'callable'])}"
+        if k == 6: return f"{self.P(self.e_any(sc, d - 1))} is {r.choice(['', 'not '])}{r.choice(['defined', 'none', 'string', 'number', 'sequence', 'mapping', 'iterable', 'callable'])}"
         if k == 7: return f"({self.e_int(sc, d - 1)}) is {r.choice(['even', 'odd', 'divisibleby(3)', 'divisibleby 2'])}"
         if k == 8: return f"{r.choice(['undefined_name', 'i0', 'nope'])} is {r.choice(['defined', 'undefined'])}"
         if k == 9: return f"({self.e_str(sc, d - 1)}) is {r.choice(['lower', 'upper'])}"
         if k == 10: return f"({self.e_int(sc, d - 1)}) is {r.choice(['eq', 'ne', 'lt', 'gt', 'ge', 'le', 'sameas', 'equalto', 'greaterthan', 'lessthan'])}({self.e_int(sc, d - 1)})"
         if k == 11: return f"{self.e_str(sc, d - 1)} in {self.e_str(sc, d - 1)}"
         if k == 12 and sc.in_loop: return r.choice(["loop.first", "loop.last", "loop.previtem is defined", "loop.nextitem is defined"])
-        if k == 13: return f"{self.e_int(sc, d - 1)} is in({self.e_lint(sc, d - 1)})"
+        if k == 13: return f"{self.P(self.e_int(sc, d - 1))} is in({self.e_lint(sc, d - 1)})"
         return f"({self.e_bool(sc, d - 1)})"
 
     def e_lint(self, sc, d):
@@ -180,16 +187,16 @@ class Gen:
         k = r.randint(0, 11)
         a = self.e_lint(sc, d - 1)
         if k == 0: return f"range({r.choice(['0', '1', '3', '4'])})|list"
-        if k == 1: return f"{a}|sort"
-        if k == 2: return f"{a}|sort(reverse=true)"
-        if k == 3: return f"{a}|reverse|list"
-        if k == 4: return f"{a}|{r.choice(['select', 'reject'])}('{r.choice(['odd', 'even'])}')|list"
-        if k == 5: return f"{a}|map('abs')|list"
-        if k == 6: return f"{a} + {self.e_lint(sc, d - 1)}"
+        if k == 1: return f"{self.P(a)}|sort"
+        if k == 2: return f"{self.P(a)}|sort(reverse=true)"
+        if k == 3: return f"{self.P(a)}|reverse|list"
+        if k == 4: return f"{self.P(a)}|{r.choice(['select', 'reject'])}('{r.choice(['odd', 'even'])}')|list"
+        if k == 5: return f"{self.P(a)}|map('abs')|list"
+        if k == 6: return f"{self.P(a)} + {self.P(self.e_lint(sc, d - 1))}"
         if k == 7: return f"[{self.e_int(sc, d - 1)}, {self.e_int(sc, d - 1)}]"
-        if k == 8: return f"{a}[{r.choice(['1:', ':2', '::-1'])}]"
-        if k == 9: return f"{a}|unique|list"
-        if k == 10: return f"{a}|{r.choice(['select', 'reject'])}('{r.choice(['gt', 'lt', 'eq', 'ne', 'ge'])}', {r.randint(0, 5)})|list"
+        if k == 8: return f"{self.P(a)}[{r.choice(['1:', ':2', '::-1'])}]"
+        if k == 9: return f"{self.P(a)}|unique|list"
+        if k == 10: return f"{self.P(a)}|{r.choice(['select', 'reject'])}('{r.choice(['gt', 'lt', 'eq', 'ne', 'ge'])}', {r.randint(0, 5)})|list"
         if k == 11: return "obj.l"
         return a
 
@@ -202,14 +209,14 @@ class Gen:
             return "[" + ", ".join(self.lit_str() for _ in range(r.randint(0, 3))) + "]"
         k = r.randint(0, 7)
         a = self.e_lstr(sc, d - 1)
-        if k == 0: return f"{a}|map('{r.choice(['upper', 'lower', 'trim', 'string', 'length'])}')|map('string')|list"
-        if k == 1: return f"{a}|sort"
+        if k == 0: return f"{self.P(a)}|map('{r.choice(['upper', 'lower', 'trim', 'string', 'length'])}')|map('string')|list"
+        if k == 1: return f"{self.P(a)}|sort"
         if k == 2: return f"{self.e_lint(sc, d - 1)}|map('string')|list"
         if k == 3: return f"{self.e_str(sc, d - 1)}|list"
         if k == 4: return f"d|dictsort|map('first')|list"
         if k == 5: return f"d.keys()|sort"
-        if k == 6: return f"{self.e_str(sc, d - 1)}.split({r.choice(['', repr('a'), repr(' ')])})"
-        if k == 7: return f"{a}|reject('eq', 'a')|list"
+        if k == 6: return f"({self.e_str(sc, d - 1)}).split({r.choice(['', repr('a'), repr(' ')])})"
+        if k == 7: return f"{self.P(a)}|reject('eq', 'a')|list"
         return a
 
     def e_list(self, sc, d):
@@ -402,8 +409,8 @@ class Gen:
             return self.tag("autoescape " + r.choice(["true", "false"])) + self.body(Scope(sc), depth - 1, 2) + self.tag("endautoescape")
         if k == 25:
             f("do")
-            return self.tag(r.choice(["do li.append(i0)", "do d.update({'q': 1})", "do ls.sort()"]))
-        if k == 26 and r.random() < self.errors * 5:
+            return self.tag(r.choice(["do acc.append(i0)", "do acc.append(s0)", "do acc.extend([1, 2])"])) + (self.var("acc|length") if r.random() < 0.5 else "")
+        if k == 26 and r.random() < self.errors * 4:
             f("syntax-error")
             return r.choice(["{% if %}", "{{ 1 + }}", "{% endfor %}", "{% for x %}", "{{ 'a }}", "{% unknown_tag %}", "{{ (1 }}", "{% set = 1 %}", "{{ a b }}", "{% if x %}", "{{ 1 | }}", "{% else %}"])
         if k == 27:
